@@ -85,10 +85,78 @@ def _cases(tier):
 
 
 KS = [None, 1, 2, 3]
+HIST = [("fail", 3, 1), ("fail", 3, 2), ("pause", 3, 1), ("ok", 3, 1), ("fail-raise", 2, 1)]
 
 
 def shards(tier, seed):
-    return [(tier, seed, i, k) for i, _ in enumerate(_cases(tier)) for k in KS]
+    return [(tier, seed, i, k) for i, _ in enumerate(_cases(tier)) for k in KS] + [(tier, seed, "hist", i) for i in range(len(HIST))]
+
+
+def history_case(acc, first, k1, k2, tier):
+    """Two top-level calls awaited one after the other in ONE task (one context): the limit of the first call
+    (which fails / pauses / completes) must not survive into the second."""
+    from hypergraph import AsyncRunner
+
+    from .. import seams
+    from ..dsl import build, canon
+    from ..vloop import Deadlock, Horizon, VLoop
+
+    F = 3
+    nodes = [T.fn(f"f{i}", ["e0"], [f"x{i}"]) for i in range(F)]
+    if first == "pause":
+        nodes.append(T.interrupt("ask", ["x0"], ["ans"], behav="pause"))
+    prog = T.set_async(T.prog(nodes), True)
+    for sp in prog["nodes"]:
+        if sp["kind"] == "interrupt":
+            sp.pop("async", None)
+    ins = {"e0": ("prov", "e0")}
+
+    def run(ch):
+        h = H(ch, suspend=True)
+        g = build(prog, h)
+        loop = VLoop()
+        h.loop = loop
+        runner = AsyncRunner()
+        marks = {}
+
+        async def main():
+            if first.startswith("fail"):
+                h.fault = {("f1", 0)}
+            try:
+                await runner.run(g, dict(ins), max_concurrency=k1, error_handling="raise" if first == "fail-raise" else "continue")
+            except Exception:  # noqa: BLE001 - the first call's own fate is not what is judged here
+                pass
+            h.fault = None
+            marks["peak1"] = h.inflight_peak
+            h.inflight_peak = 0
+            r2 = await runner.run(g, dict(ins), max_concurrency=k2, error_handling="continue")
+            marks["peak2"] = h.inflight_peak
+            return r2
+
+        try:
+            with seams.use(h):
+                r2 = loop.run_main(main(), ch, budget=400000)
+        except (Deadlock, Horizon) as e:
+            return None, marks, type(e).__name__
+        finally:
+            loop.close()
+        return r2, marks, None
+
+    stats = {}
+    for ch, (r2, marks, stuck) in explore(run, bound=None, max_execs=20000, stats=stats):
+        acc.evaluations += 1
+        acc.traces += 1
+        account_sched(acc, ("hist", first, k1, k2), ch)
+        w = {"history": [first, k1, k2], "choices": ch.choices}
+        if stuck:
+            acc.violation({"symptom": "deadlock" if stuck == "Deadlock" else "horizon", "history": first}, w, f"second call after a {first} call did not terminate ({stuck})")
+            continue
+        acc.outcomes[("hist", first, k1, k2, marks.get("peak2"))] += 1
+        if marks.get("peak2", 0) > k2:
+            acc.violation({"symptom": "in-flight-exceeds-limit", "history": "second-call-after-" + first}, w, f"after a first call with max_concurrency={k1} that {first}s, a second call with max_concurrency={k2} had {marks['peak2']} node functions executing at once", size=len(ch.choices))
+    acc.key(("hist", first, k1, k2))
+    if stats.get("cap_hit"):
+        acc.caps.append({"history": [first, k1, k2], "cap": 20000})
 
 
 def _run(prog, inputs, extra, k, ch):
@@ -113,6 +181,9 @@ def judge(x, k, ref_view):
 def run_shard(shard):
     tier, seed, ci, k = shard
     acc = Acc()
+    if ci == "hist":
+        history_case(acc, *HIST[k], tier)
+        return acc
     name, prog, inputs, extra = list(_cases(tier))[ci]
     ap = _apply_sync(prog)
     ch0, x0 = run_once(lambda ch: _run(ap, inputs, extra, None, ch), [])
@@ -143,6 +214,10 @@ def coverage_extra(acc, tier, seed):
 
 
 def replay(rep):
+    if "history" in rep:
+        acc = Acc()
+        history_case(acc, *rep["history"], "quick")
+        return [v["message"] for v in acc.violations.values()]
     ap = _apply_sync(rep["program"])
     _, x0 = run_once(lambda ch: _run(ap, rep["inputs"], rep["extra"], None, ch), [])
     _, x = run_once(lambda ch: _run(ap, rep["inputs"], rep["extra"], rep["k"], ch), rep["choices"])
